@@ -3063,6 +3063,7 @@ func ParseDuration(s string) (time.Duration, error) {
 
 	var measure int64
 	var unit string
+	var overflow bool
 
 	// Parsing loop.
 	for i < len(a) {
@@ -3092,28 +3093,36 @@ func ParseDuration(s string) (time.Duration, error) {
 		case 'n':
 			if i+1 < len(a) && a[i+1] == 's' {
 				unit = string(a[i : i+2])
+				overflow = overflow || durationOverflows(d, n, time.Nanosecond)
 				d += time.Duration(n)
 				i += 2
 				continue
 			}
 			return 0, ErrInvalidDuration
 		case 'u', 'µ':
+			overflow = overflow || durationOverflows(d, n, time.Microsecond)
 			d += time.Duration(n) * time.Microsecond
 		case 'm':
 			if i+1 < len(a) && a[i+1] == 's' {
 				unit = string(a[i : i+2])
+				overflow = overflow || durationOverflows(d, n, time.Millisecond)
 				d += time.Duration(n) * time.Millisecond
 				i += 2
 				continue
 			}
+			overflow = overflow || durationOverflows(d, n, time.Minute)
 			d += time.Duration(n) * time.Minute
 		case 's':
+			overflow = overflow || durationOverflows(d, n, time.Second)
 			d += time.Duration(n) * time.Second
 		case 'h':
+			overflow = overflow || durationOverflows(d, n, time.Hour)
 			d += time.Duration(n) * time.Hour
 		case 'd':
+			overflow = overflow || durationOverflows(d, n, 24*time.Hour)
 			d += time.Duration(n) * 24 * time.Hour
 		case 'w':
+			overflow = overflow || durationOverflows(d, n, 7*24*time.Hour)
 			d += time.Duration(n) * 7 * 24 * time.Hour
 		default:
 			return 0, ErrInvalidDuration
@@ -3122,7 +3131,7 @@ func ParseDuration(s string) (time.Duration, error) {
 	}
 
 	// Check to see if we overflowed a duration
-	if d < 0 && !isNegative {
+	if overflow || (d < 0 && !isNegative) {
 		return 0, fmt.Errorf("overflowed duration %d%s: choose a smaller duration or INF", measure, unit)
 	}
 
@@ -3130,6 +3139,15 @@ func ParseDuration(s string) (time.Duration, error) {
 		d = -d
 	}
 	return d, nil
+}
+
+// durationOverflows reports whether d + n*unit does not fit in a time.Duration.
+// d and n are non-negative and unit is positive.
+func durationOverflows(d time.Duration, n int64, unit time.Duration) bool {
+	if n > math.MaxInt64/int64(unit) {
+		return true
+	}
+	return int64(d) > math.MaxInt64-n*int64(unit)
 }
 
 // FormatDuration formats a duration to a string.
